@@ -235,6 +235,7 @@ fn run_path(cfg: &Cfg, ops: &[Op], start: u8, path: &[u16], rec: &mut Rec) {
     let starts = start_pools();
     let mut m = starts[start as usize].clone();
     let desc = path_text(start, path, ops);
+    crate::core::arm_fatal(crate::core::FatalCase { sweep: "path".into(), payload: Some(payload_of(start, path)), site: "history".into(), case: desc.clone() });
     let res = guard(|| {
         let mut probs = vec![];
         let live0 = alloc::live_bytes();
@@ -264,6 +265,7 @@ fn run_path(cfg: &Cfg, ops: &[Op], start: u8, path: &[u16], rec: &mut Rec) {
         let live1 = alloc::live_bytes() - obs_bytes;
         (probs, if had { live0 } else { live1 }, live0)
     });
+    crate::core::disarm_fatal();
     match res {
         Ok((probs, live1, live0)) => {
             for (kind, o, e) in &probs {
@@ -348,6 +350,11 @@ pub fn explore(ctx: &mut Ctx, cfg: &Cfg) {
                 Ok(()) => {}
             }
             let starts = start_pools();
+            {
+                let mut path = node.path.clone();
+                path.push(oi as u16);
+                crate::core::arm_fatal(crate::core::FatalCase { sweep: "path".into(), payload: Some(payload_of(node.start, &path)), site: "history".into(), case: path_text(node.start, &path, opsr) });
+            }
             let res = guard(|| {
                 // re-materialise the state by replaying its path on fresh values
                 let live0 = alloc::live_bytes();
@@ -365,6 +372,7 @@ pub fn explore(ctx: &mut Ctx, cfg: &Cfg) {
                 let leaked = alloc::live_bytes() - obs_bytes - live0;
                 (obs, cap_before, cap_after, leaked)
             });
+            crate::core::disarm_fatal();
             rec.step();
             let mut path = node.path.clone();
             path.push(oi as u16);
